@@ -369,10 +369,24 @@ static domain* make_domain(const Shape& s) { return domain::createBottomUp(s.b.d
 static std::vector<double> alphabet(const Kind& k, int variant=0)
 {
     if (k.range=='b') return {0,1};
+    if (variant==2) {        // two values: a function over 64 points is then a 64-bit mask (relations over three binary variables)
+        if (k.lab=='p' || k.lab=='x') return {INF,2};
+        if (k.lab=='t') return {0,2};
+        if (k.range=='r') return {0,0.5};
+        return {0,2};
+    }
     if (k.lab=='p' || k.lab=='x') return variant==1 ? std::vector<double>{-2,0,3,INF} : std::vector<double>{0,1,3,INF};
     if (k.lab=='t') return {0,0.5,1,2};
     if (k.range=='r') return {-1.5,0,0.5,2};
     return variant==1 ? std::vector<double>{-1,0,1,2} : std::vector<double>{-2,0,1,3};
+}
+
+// the kind's alphabet, or the two-value one when function numbers over this shape would not fit 64 bits
+static std::vector<double> alphabet_for(const Kind& k, const Shape& s, int variant=0)
+{
+    std::vector<double> V = alphabet(k,variant);
+    if ((double)s.points(k.rel)*std::log2((double)V.size()) > 64.0) V = alphabet(k,2);
+    return V;
 }
 
 static rangeval to_rangeval(const Kind& k, double v)
@@ -908,9 +922,13 @@ static unary_operation* get_uop(unary_factory& f, forest* a, forest* c, const ch
 struct Universe {
     forest* F = nullptr; Kind k; Shape s; std::vector<double> V; long P = 0; unsigned long U = 0;
     std::vector<dd_edge> e;
+    // lazy mode (universe too large to enumerate, e.g. relations over three variables): functions are built and verified on first use
+    bool lazy = false; std::map<unsigned long,dd_edge> le;
     // builds and verifies (double read-out) every function; returns false on a build violation
     bool build(forest* f, const Kind& kk, const Shape& ss, const std::vector<double>& vv, bool verify=true) {
-        F=f; k=kk; s=ss; V=vv; P=s.points(k.rel); U=ipow(V.size(),P);
+        F=f; k=kk; s=ss; V=vv; P=s.points(k.rel);
+        if ((double)P*std::log2((double)V.size()) > 22.0) { lazy=true; U=0; return true; }
+        U=ipow(V.size(),P);
         e.assign(U, dd_edge(F));
         Builder B(F,k,s);
         for (unsigned long i=0;i<U;i++) {
@@ -922,6 +940,15 @@ struct Universe {
             }
         }
         return true;
+    }
+    // the canonical edge of function number i
+    const dd_edge& get(unsigned long i) {
+        if (!lazy) return e[i];
+        auto it = le.find(i); if (it!=le.end()) return it->second;
+        dd_edge x(F); Table t = tab_from_index(i,P,V); Builder B(F,k,s); B.build(t, x);
+        std::string err = check_edge(x,k,s,t);
+        if (!err.empty()) { char save[sizeof ctx.cur]; memcpy(save,ctx.cur,sizeof save); snprintf(ctx.cur,sizeof ctx.cur,"lazy universe build kind=%s shape=%s f=%lu",k.name().c_str(),s.name.c_str(),i); lz_fn_reset(); violation("build-readback","%s",err.c_str()); memcpy(ctx.cur,save,sizeof save); }
+        return le.emplace(i,x).first->second;
     }
     Table table(unsigned long i) const { return tab_from_index(i,P,V); }
     // function number of a table, or -1 if some value is outside the alphabet
@@ -940,10 +967,33 @@ struct Universe {
             Table t = table(i), x; read_eval(e[i],k,s,x);
             if (!tab_eq(k,x,t)) return "held operand f=" + std::to_string(i) + " now reads [" + tab_str(x) + "], was [" + tab_str(t) + "]";
         }
+        for (auto& kv : le) {
+            Table t = table(kv.first), x; read_eval(kv.second,k,s,x);
+            if (!tab_eq(k,x,t)) return "held operand f=" + std::to_string(kv.first) + " now reads [" + tab_str(x) + "], was [" + tab_str(t) + "]";
+        }
         return "";
     }
-    void clear() { e.clear(); }
+    void clear() { e.clear(); le.clear(); }
 };
+
+// "event" relations as bit masks (needs relPoints <= 64): a single transition on one or two variables, identity on every other
+// variable; two=true adds the unions of two events.  These are the relation shapes whose diagrams skip levels (identity) in the middle.
+static std::vector<unsigned long> event_masks(const Shape& s, bool two)
+{
+    std::vector<unsigned long> ev, v; int x[16], xp[16]; long RP = s.relPoints();
+    if (RP>64) return v;
+    for (int a=1; a<=s.K(); a++) for (int b=a; b<=s.K(); b++) {
+        int ba=s.b[a-1], bb=s.b[b-1];
+        for (int fa=0;fa<ba;fa++) for (int ta=0;ta<ba;ta++) for (int fb=0;fb<(a==b?1:bb);fb++) for (int tb=0;tb<(a==b?1:bb);tb++) {
+            unsigned long m=0;
+            for (long p=0;p<RP;p++) { decode_rel(s,p,x,xp); bool ok = x[a]==fa && xp[a]==ta && (a==b || (x[b]==fb && xp[b]==tb)); for (int u=1;u<=s.K();u++) if (u!=a && u!=b && x[u]!=xp[u]) ok=false; if (ok) m|=1UL<<p; }
+            ev.push_back(m);
+        }
+    }
+    if (!two) v=ev; else for (size_t i=0;i<ev.size();i++) for (size_t j=i;j<ev.size();j++) v.push_back(ev[i]|ev[j]);
+    std::sort(v.begin(),v.end()); v.erase(std::unique(v.begin(),v.end()),v.end());
+    return v;
+}
 
 // Oracle for an operation result: identical to the harness-built canonical edge for the expected
 // table (exact kinds), else compared value by value through both readers.
